@@ -102,7 +102,7 @@ where
     let mut items = vec![];
     let mut buf = BytesMut::new();
     let bound = stream.len() + 8;
-    let mut feed = |codec: &mut D, buf: &mut BytesMut, items: &mut Vec<Item>, bytes: &[u8]| {
+    let feed = |codec: &mut D, buf: &mut BytesMut, items: &mut Vec<Item>, bytes: &[u8]| {
         buf.extend_from_slice(bytes);
         let mut n = 0;
         loop {
